@@ -79,7 +79,7 @@ class Runner:
         self.root = root
         self.ctx = hg.Ctx(rng)
         # every history starts on another calendar day (month ends, the 9th/10th/19th/20th, leap days …)
-        self.day = rng.choice([DAY0, dt.date(2028, 2, 27), dt.date(2030, 12, 29), dt.date(2031, 3, 8), dt.date(2031, 3, 18), dt.date(2031, 4, 29), DAY0 + dt.timedelta(days=rng.randint(0, 700))])
+        self.day = rng.choice([DAY0, dt.date(2028, 2, 27), dt.date(2028, 2, 28), dt.date(2028, 2, 29), dt.date(2068, 12, 31), dt.date(2030, 12, 29), dt.date(2031, 3, 8), dt.date(2031, 3, 18), dt.date(2031, 4, 29), DAY0 + dt.timedelta(days=rng.randint(0, 700))])
         self.allow = allow or ALL_STEPS
         self.opts = opts
         self.log: list = []
